@@ -142,6 +142,9 @@ FUNC_POSITIONS = [
     ("return-second", 'func r() (int, string) {\n\treturn 1, {X}\n}\na, b := r()\nprint(a, b)', {"string"}),
     ("return-slice", "func r() []int {\n\treturn {X}\n}\nprint(len(r()))", {"[]int"}),
     ("return-in-void", "func r() {\n\treturn {X}\n}\nr()", set()),
+    # a function without return types: a `return <value>` at the top level of its body is rejected wherever it stands (round 9: C06-B)
+    ("return-in-void-then-statement", "func r() {\n\treturn {X}\n\tprint(1)\n}\nr()", set()),
+    ("return-in-void-between-statements", "func r() {\n\tprint(0)\n\treturn {X}\n\tprint(1)\n\tprint(2)\n}\nr()", set()),
     ("return-count-more", "func r() int {\n\treturn 1, {X}\n}\nprint(r())", set()),
     ("return-count-less", "func r() (int, int) {\n\treturn {X}\n}\na, b := r()\nprint(a, b)", set()),
     ("return-missing", "func r() int {\n\tprint({X})\n}\nprint(r())", set()),
